@@ -152,18 +152,40 @@ def spelling(k):
 # running one case
 
 
+class _CpuLimit(BaseException):
+    pass
+
+
+def _on_vtalrm(signum, frame):
+    raise _CpuLimit()
+
+
+CPU_LIMIT_S = 3.0  # CPU seconds of this process (ITIMER_VIRTUAL: independent of machine load); a case needs ~0.002
+
+
 def run_mako(src, tk, ctx):
+    """universal oracle: compiling and rendering terminates (within CPU_LIMIT_S of CPU time)"""
+    import signal
+
     from mako.template import Template
 
+    old = signal.signal(signal.SIGVTALRM, _on_vtalrm)
+    signal.setitimer(signal.ITIMER_VIRTUAL, CPU_LIMIT_S)
     try:
-        t = Template(src, **tk)
-    except Exception as e:  # noqa
-        return ("exc", type(e).__name__, str(e)[:160], "compile")
-    try:
-        out = t.render_unicode(**ctx)
-    except Exception as e:  # noqa
-        return ("exc", type(e).__name__, repr(e.args)[:160], "render")
-    return ("ok", out)
+        try:
+            t = Template(src, **tk)
+        except Exception as e:  # noqa
+            return ("exc", type(e).__name__, str(e)[:160], "compile")
+        try:
+            out = t.render_unicode(**ctx)
+        except Exception as e:  # noqa
+            return ("exc", type(e).__name__, repr(e.args)[:160], "render")
+        return ("ok", out)
+    except _CpuLimit:
+        return ("exc", "DoesNotTerminate", "no result after %.0f s of CPU time" % CPU_LIMIT_S, "render")
+    finally:
+        signal.setitimer(signal.ITIMER_VIRTUAL, 0)
+        signal.signal(signal.SIGVTALRM, old)
 
 
 _ARGS_COMPARED = ("ValueError", "KeyError")
